@@ -192,23 +192,112 @@ def run(ctx) -> None:
     if len(c.args) != 5:
         raise AnchorError("_is_awaiting_threshold: compare_values arity changed")
     op, a_val, a_unit, t_val, t_unit = c.args
-    e_aval, e_aunit = norm(expand_local(a_val, defs)), norm(expand_local(a_unit, defs))
-    e_tval, e_tunit = norm(expand_local(t_val, defs)), norm(expand_local(t_unit, defs))
-    checks = [
-        ("operator is '<'", isinstance(op, ast.Constant) and op.value == "<"),
-        ("first operand is the clock value (block tag inside a block, scope tag otherwise)",
-         "block_value_tag.get_value() if is_in_block else value_tag.get_value()" in e_aval),
-        ("clock unit follows the same selection", e_aunit == "block_value_tag.unit if is_in_block else value_tag.unit"),
-        ("second operand is node.threshold", "node.threshold" in e_tval),
-        ("threshold unit is the base unit", e_tunit in ("base_unit",) or "SystemTagName.BASE" in e_tunit),
-    ]
-    for what, ok in checks:
-        inst = f"_is_awaiting_threshold: {what}"
-        if ok:
+    roles = _threshold_roles(f)
+    par = f.node.args.args[1].arg
+
+    def unwrap(e):
+        e = expand_local(e, defs)
+        while isinstance(e, ast.Call) and call_attr(e) == "str" and len(e.args) == 1:
+            e = expand_local(e.args[0], defs)
+        return e
+
+    def clock_sel(e, attr_kind):
+        """('block'|'scope' when in block, 'block'|'scope' otherwise) for `X.<kind> if INBLOCK else Y.<kind>`; None if another shape."""
+        e = unwrap(e)
+        if not isinstance(e, ast.IfExp):
+            return None
+        test, flip = e.test, False
+        if isinstance(test, ast.UnaryOp) and isinstance(test.op, ast.Not):
+            test, flip = test.operand, True
+        if not (isinstance(test, ast.Name) and roles.get(test.id) == "inblock"):
+            return None
+
+        def role_of(x):
+            if attr_kind == "value" and isinstance(x, ast.Call) and call_attr(x) in ("get_value", "as_number", "as_float") \
+                    and isinstance(x.func.value, ast.Name):
+                return roles.get(x.func.value.id)
+            if attr_kind == "unit" and isinstance(x, ast.Attribute) and x.attr == "unit" and isinstance(x.value, ast.Name):
+                return roles.get(x.value.id)
+            return None
+        rb, ro = role_of(e.body), role_of(e.orelse)
+        if rb not in ("block", "scope") or ro not in ("block", "scope"):
+            return None
+        return (ro, rb) if flip else (rb, ro)
+
+    def is_threshold(e):
+        e = unwrap(e)
+        return isinstance(e, ast.Attribute) and e.attr == "threshold" and isinstance(e.value, ast.Name) and e.value.id == par
+
+    def is_base(e):
+        e2 = e
+        return isinstance(e2, ast.Name) and roles.get(e2.id) == "base" or (
+            isinstance(expand_local(e2, defs), ast.Name) and roles.get(expand_local(e2, defs).id) == "base")
+
+    call_txt = f"compare_values({', '.join(norm(x) for x in c.args)})"
+    # operator
+    inst = "_is_awaiting_threshold: operator is '<'"
+    if not isinstance(op, ast.Constant):
+        raise AnchorError("_is_awaiting_threshold: comparison operator is not a literal")
+    if op.value == "<":
+        ctx.ok("R03b", inst)
+    else:
+        ctx.fail("R03b", f, c, inst, f"{call_txt}: the wait lasts while clock {op.value} threshold, not while clock < threshold "
+                 "(the instruction starts a tick early or late, or never)")
+    sel_v, sel_u = clock_sel(a_val, "value"), clock_sel(a_unit, "unit")
+    swapped = sel_v is None and is_threshold(a_val) and clock_sel(t_val, "value") is not None
+    if swapped:
+        ctx.fail("R03b", f, c, "_is_awaiting_threshold: first operand is the clock value (block tag inside a block, scope tag otherwise)",
+                 f"{call_txt}: operands swapped - the comparison is threshold < clock")
+    elif sel_v is None or sel_u is None:
+        raise AnchorError(f"_is_awaiting_threshold: clock operand of {call_txt} is not `<block clock>.get_value() if <in block> else "
+                          "<scope clock>.get_value()` over the tags returned by get_tags(base unit) - shape not understood")
+    else:
+        inst = "_is_awaiting_threshold: first operand is the clock value (block tag inside a block, scope tag otherwise)"
+        if sel_v == ("block", "scope"):
             ctx.ok("R03b", inst)
         else:
-            ctx.fail("R03b", f, c, inst, f"compare_values({norm(op)}, {e_aval}, {e_aunit}, {e_tval}, {e_tunit}): threshold comparison is no "
-                     f"longer 'clock < threshold' on the scope's clock")
+            ctx.fail("R03b", f, c, inst, f"{call_txt}: inside a block the {sel_v[0]} clock is compared and outside the {sel_v[1]} clock: "
+                     "thresholds are measured on the wrong clock")
+        inst = "_is_awaiting_threshold: clock unit follows the same selection"
+        if sel_u == sel_v:
+            ctx.ok("R03b", inst)
+        else:
+            ctx.fail("R03b", f, c, inst, f"{call_txt}: the clock value is selected as {sel_v} but its unit as {sel_u}")
+    # threshold operand
+    inst = "_is_awaiting_threshold: second operand is node.threshold"
+    tv = unwrap(t_val)
+    if swapped:
+        pass
+    elif is_threshold(t_val):
+        ctx.ok("R03b", inst)
+    else:
+        helper = _helper_behind(f, t_val, prog)
+        if helper is not None:
+            ctx.analysed(helper)
+            bad = _incomplete_memo_key(helper)
+            if bad:
+                cache, key, missing = bad
+                ctx.fail("R03b", helper, helper.node, inst, f"the threshold operand comes from {helper.short}, which memoises its result in "
+                         f"self.{cache} under the key `{key}` although the result also depends on {missing}: after `Base:` changes "
+                         "(a macro or alarm body run again, a Watch changing Base while a node waits) the node is compared with a "
+                         "threshold converted for the old base unit")
+            else:
+                raise AnchorError(f"_is_awaiting_threshold: threshold operand comes from {helper.short} - conversion helper not understood")
+        else:
+            raise AnchorError(f"_is_awaiting_threshold: threshold operand `{norm(tv)}` is not {par}.threshold - shape not understood")
+    inst = "_is_awaiting_threshold: threshold unit is the base unit"
+    if swapped:
+        pass
+    elif is_base(t_unit):
+        ctx.ok("R03b", inst)
+    elif clock_sel(t_unit, "unit") is not None or (
+            isinstance(expand_local(t_unit, defs), ast.Attribute) and expand_local(t_unit, defs).attr == "unit"
+            and isinstance(expand_local(t_unit, defs).value, ast.Name) and roles.get(expand_local(t_unit, defs).value.id) in ("scope", "block")):
+        ctx.fail("R03b", f, c, inst, f"{call_txt}: the threshold is interpreted in the clock tag's unit, not in the current base unit")
+    elif _helper_behind(f, t_unit, prog) is not None:
+        pass   # decided together with the value operand above
+    else:
+        raise AnchorError(f"_is_awaiting_threshold: threshold unit `{norm(expand_local(t_unit, defs))}` is not the base unit local - shape not understood")
     resvar = None
     if isinstance(cmp_nodes[0].ast, ast.Assign):
         resvar = norm(cmp_nodes[0].ast.targets[0])
@@ -218,17 +307,13 @@ def run(ctx) -> None:
         ctx.ok("R03b", inst)
     else:
         ctx.fail("R03b", f, f.node, inst, "the result of the comparison does not decide the wait")
-    isin = defs.get("is_in_block")
-    if isin is not None and "SystemTagName.BLOCK" in norm(isin) and "not in [None, '']" in norm(isin):
+    inb = [k for k, v in roles.items() if v == "inblock"]
+    if inb:
         ctx.ok("R03b", "_is_awaiting_threshold: inside a block <=> Block tag is not None/empty")
     else:
-        ctx.fail("R03b", f, f.node, "_is_awaiting_threshold: inside a block <=> Block tag is not None/empty", f"is_in_block = {norm(isin) if isin else None}")
-    unp = [n for n in walk_no_nested(f.node) if isinstance(n, ast.Assign) and isinstance(n.targets[0], ast.Tuple)
-           and isinstance(n.value, ast.Call) and call_attr(n.value) == "get_tags"]
-    if unp and [norm(e) for e in unp[0].targets[0].elts] == ["value_tag", "block_value_tag"]:
-        ctx.ok("R03b", "_is_awaiting_threshold: unpacks get_tags as (scope tag, block tag)")
-    else:
-        ctx.fail("R03b", f, f.node, "_is_awaiting_threshold: unpacks get_tags as (scope tag, block tag)", "unpack order changed")
+        raise AnchorError("_is_awaiting_threshold: `<in block> = <Block tag>.get_value() not in [None, '']` not found")
+    # (the unpack order of get_tags is role-defining: element 0 is the scope clock, element 1 the block clock - see _threshold_roles;
+    #  that this matches what BaseUnitProvider stores and what UodBuilder registers is checked next)
     bup = prog.cls("openpectus.lang.exec.base_unit:BaseUnitProvider")
     st = bup.methods.get("set")
     ps = [a.arg for a in st.node.args.args[1:]]
@@ -250,3 +335,88 @@ def run(ctx) -> None:
                 ctx.fail("R03b", ub, cc, inst, "scope and block clocks swapped or wrong unit")
     if n_reg < 3:
         raise AnchorError("UodBuilder.__init__: registrations of s/min/h not found")
+
+
+def _threshold_roles(f) -> dict:
+    """name -> role in _is_awaiting_threshold: 'base' (current base unit), 'scope'/'block' (clock tag objects; positional from
+    get_tags(base): element 0 scope, element 1 block), 'inblock' (Block tag set)."""
+    roles: dict[str, str] = {}
+    assigns = sorted((n for n in ast.walk(f.node) if isinstance(n, ast.Assign) and len(n.targets) == 1), key=lambda n: (n.lineno, n.col_offset))
+    for n in assigns:
+        t, v = n.targets[0], n.value
+        if isinstance(t, ast.Name):
+            txt = norm(v)
+            if "SystemTagName.BASE" in txt and txt.endswith(".get_value()"):
+                roles[t.id] = "base"
+            elif isinstance(v, ast.Name) and v.id in roles:
+                roles[t.id] = roles[v.id]
+            elif isinstance(v, ast.Compare) and len(v.ops) == 1 and isinstance(v.ops[0], ast.NotIn) and "SystemTagName.BLOCK" in norm(v.left) \
+                    and norm(v.left).endswith(".get_value()") and isinstance(v.comparators[0], (ast.List, ast.Tuple)) \
+                    and sorted(repr(getattr(e, "value", "?")) for e in v.comparators[0].elts) == sorted([repr(None), repr("")]):
+                roles[t.id] = "inblock"
+            elif isinstance(v, ast.Subscript) and isinstance(v.slice, ast.Name) and roles.get(v.slice.id) in ("scope-name", "block-name") \
+                    and norm(v.value).endswith("tags"):
+                roles[t.id] = roles[v.slice.id].split("-")[0]
+        elif isinstance(t, ast.Tuple) and len(t.elts) == 2 and all(isinstance(e, ast.Name) for e in t.elts):
+            if isinstance(v, ast.Call) and call_attr(v) == "get_tags" and v.args and isinstance(v.args[0], ast.Name) \
+                    and roles.get(v.args[0].id) == "base":
+                roles[t.elts[0].id], roles[t.elts[1].id] = "scope-name", "block-name"
+            elif isinstance(v, ast.Tuple) and len(v.elts) == 2:
+                new = []
+                for e in v.elts:
+                    r = None
+                    if isinstance(e, ast.Subscript) and isinstance(e.slice, ast.Name) and roles.get(e.slice.id) in ("scope-name", "block-name") \
+                            and norm(e.value).endswith("tags"):
+                        r = roles[e.slice.id].split("-")[0]
+                    new.append(r)
+                for te, r in zip(t.elts, new):
+                    if r:
+                        roles[te.id] = r
+    return roles
+
+
+def _helper_behind(f, expr, prog):
+    """If expr is a local bound (possibly by tuple unpacking) to the result of self.<helper>(...), return that helper."""
+    if not isinstance(expr, ast.Name):
+        return None
+    for n in ast.walk(f.node):
+        if isinstance(n, ast.Assign) and len(n.targets) == 1:
+            t = n.targets[0]
+            names = [e.id for e in t.elts if isinstance(e, ast.Name)] if isinstance(t, ast.Tuple) else ([t.id] if isinstance(t, ast.Name) else [])
+            if expr.id in names and isinstance(n.value, ast.Call) and isinstance(n.value.func, ast.Attribute) \
+                    and isinstance(n.value.func.value, ast.Name) and n.value.func.value.id == "self" and f.cls is not None:
+                return f.cls.find_method(n.value.func.attr)
+    return None
+
+
+def _incomplete_memo_key(fn):
+    """(cache attr, key text, missing inputs) if fn returns a value memoised in a dict attribute of self under a key that does not
+    mention every parameter the function reads; None otherwise."""
+    stores = [n for n in ast.walk(fn.node) if isinstance(n, ast.Assign) and len(n.targets) == 1 and isinstance(n.targets[0], ast.Subscript)
+              and isinstance(n.targets[0].value, ast.Attribute) and isinstance(n.targets[0].value.value, ast.Name)
+              and n.targets[0].value.value.id == "self"]
+    for st in stores:
+        cache = st.targets[0].value.attr
+        key = st.targets[0].slice
+        reads = [n for n in ast.walk(fn.node) if isinstance(n, ast.Call) and call_attr(n) == "get" and norm(n.func.value) == f"self.{cache}"] + \
+                [n for n in ast.walk(fn.node) if isinstance(n, ast.Subscript) and isinstance(n.ctx, ast.Load) and norm(n.value) == f"self.{cache}"]
+        if not reads:
+            continue
+        key_names = {x.id for x in ast.walk(key) if isinstance(x, ast.Name)}
+        params = [a.arg for a in fn.node.args.args[1:]]
+        used = set()
+        for n in ast.walk(fn.node):
+            if isinstance(n, ast.Name) and n.id in params:
+                used.add(n.id)
+        # names only used inside logging calls do not influence the result
+        logged_only = set()
+        for pn in used:
+            occ = [n for n in ast.walk(fn.node) if isinstance(n, ast.Name) and n.id == pn]
+            inlog = [n for c in ast.walk(fn.node) if isinstance(c, ast.Call) and norm(c.func).split(".")[0] in ("logger", "frontend_logger")
+                     for n in ast.walk(c) if isinstance(n, ast.Name) and n.id == pn]
+            if occ and len(occ) == len(inlog):
+                logged_only.add(pn)
+        missing = sorted(used - key_names - logged_only)
+        if missing:
+            return cache, norm(key), ", ".join(missing)
+    return None
